@@ -4,7 +4,6 @@ import (
 	"context"
 	"errors"
 	"fmt"
-	"io"
 	"testing"
 	"time"
 
@@ -116,17 +115,14 @@ func drawQueryScenario(c *choice.Stream, cf *Conf) *queryScenario {
 			for i := 0; i < n; i++ {
 				plan.Rounds = append(plan.Rounds, InputRound{Op: "reset-append", Vals: drawRoundVals(c, sc.cols, c.Range("in.rows", 1, 4))})
 			}
-			plan.Rounds = append(plan.Rounds, InputRound{Op: "eof"})
+			if c.Bool("in.tail", 1, 3) {
+				plan.Rounds = append(plan.Rounds, InputRound{Op: "eof-tail", Vals: drawRoundVals(c, sc.cols, c.Range("in.rows", 1, 4))})
+			} else {
+				plan.Rounds = append(plan.Rounds, InputRound{Op: "eof"})
+			}
 		}
 		sc.plan = plan
-		// blocks sent: initial (if rows0>0) + one per appending round; then terminator
-		blocks := len(plan.Rounds) - 1
-		if !streamed {
-			blocks = 1
-		} else if rows0 > 0 {
-			blocks++
-		}
-		sc.nData = blocks + 1
+		sc.nData = len(plan.ExpectedBlocks()) + 1
 		for i, cs := range sc.cols {
 			col, err := gen.NewCol(cs.Type)
 			if err != nil {
@@ -140,27 +136,7 @@ func drawQueryScenario(c *choice.Stream, cf *Conf) *queryScenario {
 		}
 		sc.query.Body = "INSERT INTO t VALUES"
 		if streamed {
-			round := 0
-			sc.query.OnInput = func(ctx context.Context) error {
-				if err := sc.rec.hit("input"); err != nil {
-					return err
-				}
-				if round >= len(plan.Rounds) {
-					return io.EOF
-				}
-				r := plan.Rounds[round]
-				round++
-				if r.Op == "eof" {
-					return io.EOF
-				}
-				for i, col := range sc.inCols {
-					col.Reset()
-					if err := gen.Fill(col, sc.cols[i].RT, r.Vals[i]); err != nil {
-						return err
-					}
-				}
-				return nil
-			}
+			sc.query.OnInput = plan.OnInput(sc.inCols, sc.rec)
 		}
 		await("query")
 		await("ext-end")
@@ -310,6 +286,9 @@ func runC04(t *testing.T, c *choice.Stream, r *Result, opt RunOpt) {
 		r.Sample = map[string]any{"kind": sc.kind, "fault": faultName, "client_rev": cf.ClientRev, "server_rev": cf.ServerRev, "compression": cf.Comp.String(),
 			"cols": colNames(sc.cols), "cut_k": cutK, "write_err_k": werrK, "fail_at": sc.rec.FailAt, "script": scriptLabels(script), "strategy": e.Sim.Strategy, "deliver": e.W.DeliverMode}
 
+		e.OnHang = func(info string) {
+			r.Violate("no-return", "no-return:"+faultName, "the call never returned (nothing could move for an hour of simulated time with a finite read timeout)\n%s", info)
+		}
 		return func() {
 			ctx := context.Background()
 			cl, err := ch.Connect(ctx, conn, cf.Options())
@@ -339,9 +318,6 @@ func runC04(t *testing.T, c *choice.Stream, r *Result, opt RunOpt) {
 			checkAfterFailure(e, r, cf, cl, conn, srv, faultName, derr)
 		}
 	})
-	if r.Outcome == "" && r.Probes["hang"] > 0 {
-		r.Violate("no-return", "no-return", "Do never returned")
-	}
 }
 
 func colNames(cs []ColSpec) []string {
